@@ -75,7 +75,11 @@ typedef struct of_mod2entry
 #endif
 } of_mod2entry;
 
+#if defined(OPENFEC_VERIF) && defined(OPENFEC_VERIF_SPARSE_BLOCK)
+#define of_mod2sparse_block OPENFEC_VERIF_SPARSE_BLOCK  /* verification builds only: small blocks */
+#else
 #define of_mod2sparse_block 1024  /* Number of entries to block together for memory allocation */
+#endif
 
 
 /*
